@@ -390,6 +390,51 @@ def run(ctx):
         ma.close(); mu.close()
     same_name_neighbours()
 
+    def big_schema_neighbours():
+        """schemas of 25-60 KiB (longer than any limit on one string literal or one buffer a target might have): neighbours that differ in one field type of the
+        record that comes first, in the middle or last in the schema text; C++ and Python readers, binary and NDJSON"""
+        def mk(tag, nrec, which, t):
+            recs = []
+            for j in range(nrec):
+                nm = ("AFirst" if j == 0 else "ZLast" if j == nrec - 1 else "Mid%03d" % j)
+                ft = P(t if (which, j) in (("first", 0), ("middle", nrec // 2), ("last", nrec - 1)) else "int32")
+                recs.append(Rec(nm, [("reading", ft)] + [("aRatherLongFieldNameNumber%dOfRecordNumber%03d" % (f, j), P(["float32", "int64", "string", "uint8"][f % 4])) for f in range(7)]))
+            steps = [("s%03d" % j, N(r.name)) for j, r in enumerate(recs)]
+            return Pkg("Big", recs + [Proto("Flow", steps[:3] + [("items", S(N("ZLast")))] + steps[3:])], [], [], "big_" + tag)
+        for nrec in ((45,) if quick else (45, 110)):
+            base = mk("base%d" % nrec, nrec, None, "int32")
+            mbase = rt.prepare_model(ctx, "bigschema_base%d" % nrec, base, ["plain"])
+            if mbase is None:
+                raise Inconclusive("big-schema base model did not build")
+            ctx.count("big-schema-bytes", len(mbase.schema("Flow")))
+            for which in ("last", "middle", "first"):
+                pb = mk("%s%d" % (which, nrec), nrec, which, "uint32")
+                mb = rt.prepare_model(ctx, "bigschema_%s%d" % (which, nrec), pb, ["plain"])
+                if mb is None:
+                    raise Inconclusive("big-schema neighbour did not build")
+                for direction, (mw, mr) in (("base->edited", (mbase, mb)), ("edited->base", (mb, mbase))):
+                    pw = mw.pkg.find("Flow")
+                    vals = values.ValueGen(mw.codec, rng("C15big", which, direction), json_safe=True).steps(pw, stream_len=2)
+                    for fmt, data in (("bin", mw.codec.encode_stream(pw, mw.schema("Flow"), vals)), ("ndjson", ("\n".join(mw.codec.ndjson_lines(pw, mw.schema("Flow"), vals)) + "\n").encode())):
+                        for ep in (rt.CppEndpoint(mr, "plain"), rt.PyEndpoint(mr)):
+                            r = ep.copy("Flow", fmt, "ndjson", data)
+                            ctx.ev()
+                            ctx.count("big-schema-neighbour")
+                            ctx.case(("big-schema-neighbour", nrec, which, direction, fmt, ep.name))
+                            refused(ctx, mr, r, ep.name, "ndjson", "two packages with a %d-byte schema that differ in one field type of the %s record of the schema (%s): the reader of one fed a %s stream of the other" % (
+                                len(mw.schema("Flow")), which, direction, fmt), {"class": "big-schema-neighbour:" + which, "fmt": fmt, "direction": direction})
+                # own streams are still accepted (the oracle is not vacuous)
+                pw = mb.pkg.find("Flow")
+                vals = values.ValueGen(mb.codec, rng("C15bigown", which), json_safe=True).steps(pw, stream_len=2)
+                data = mb.codec.encode_stream(pw, mb.schema("Flow"), vals)
+                for ep in (rt.CppEndpoint(mb, "plain"), rt.PyEndpoint(mb)):
+                    r = ep.copy("Flow", "bin", "bin", data)
+                    ctx.ev()
+                    rt.judge(ctx, mb, pw, vals, data, r, ep.name, "bin", "big schema: a reader on a stream of its own package", {"big_schema": True})
+                mb.close()
+            mbase.close()
+    big_schema_neighbours()
+
     # the reader generated for an edited model *over the output of the model before the edit*: it is the edited model's reader, so it refuses a
     # stream of the model before the edit - also when the edit replaces a type name by one of the same length (no generated file changes its size)
     def regenerated_in_place():
